@@ -90,6 +90,19 @@ ADDR_REG = 'tcp://10.0.0.1:10001'
 ADDR_PUB = 'tcp://10.0.0.1:10002'
 ADDR_SUB = 'tcp://10.0.0.1:10003'
 
+NENV      = 'c10env'                      # the named environment tasks may ask for
+NENV_HOME = '/opt/c10env'
+KEYS      = {'fresh': 'C10_K%d', 'innamed': 'C10_NE%d', 'agent': 'C10_AG%d'}
+AGENT_ENV = {'C10_AG1': 'agent', 'C10_AG2': 'agent', 'C10_AG3': 'agent'}    # agent has, named env not
+NAMED_ENV = {'C10_NE1': 'ne_default', 'C10_NE2': 'ne_default', 'C10_NE3': 'ne_default',
+             'VIRTUAL_ENV': NENV_HOME}
+
+
+def env_key(cfg, i):
+    kinds = cfg.get('envk') or []
+    return KEYS[kinds[i] if i < len(kinds) else 'fresh'] % (i + 1)
+
+
 _CMD = '''#!/bin/sh
 # pre/post command stand-in: log "<id> <rank>", exit as the case demands
 r="${RP_RANK:--1}"
@@ -189,6 +202,7 @@ class World(object):
         self.outs  = self.root + '/obs'
         self.other = self.root + '/elsewhere'       # sandboxes outside the pilot sandbox
         self.absd  = self.root + '/absout'          # absolute stdout / stderr names
+        self.path  = self.bin + ':/usr/bin:/bin'
         for d in (self.psbox + '/env', self.bin, self.outs, self.other, self.absd):
             os.makedirs(d)
         _write(self.psbox + '/prof', '#!/bin/sh\nexit 0\n', 0o755)
@@ -260,6 +274,25 @@ class World(object):
             mpi._command, task['description']['ranks'], exec_path)
         self.launchers = {'FORK': fork, 'MPIRUN': mpi}
 
+        # the named environment, prepared as the agent does: an env dump
+        # `env/rp_named_env.<name>.env` in the pilot sandbox; the real
+        # LaunchMethod.get_task_named_env (ru.env_prep) turns it, per launcher,
+        # into the activation script the exec script sources.  That happens in the
+        # agent's process: cwd = pilot sandbox, os.environ = the agent's environment
+        named = dict(NAMED_ENV, PATH=self.path)
+        ru.env_dump(environment=named,
+                    script_path='%s/env/rp_named_env.%s.env' % (self.psbox, NENV))
+        agent = dict(AGENT_ENV, PATH=self.path, HOME=self.root + '/home', LANG='C.UTF-8')
+        cwd   = os.getcwd()
+        try:
+            os.chdir(self.psbox)
+            with mock.patch.dict(os.environ, agent, clear=True):
+                for lm in (fork, mpi):
+                    lm._pwd = self.psbox
+                    lm.get_task_named_env(NENV)
+        finally:
+            os.chdir(cwd)
+
     # --------------------------------------------------------------------------
     def task_for(self, case):
         '''(task dict as the executor receives it, expectations derived from the
@@ -281,7 +314,8 @@ class World(object):
         g = {'k': 'g', 'on': []}
         d = {'executable'   : self.bin + '/' + case.get('probe', 'c10_exe'),
              'arguments'    : list(case['argv']),
-             'environment'  : {'C10_K%d' % (i + 1): v for i, v in enumerate(case['env'])},
+             'environment'  : {env_key(cfg, i): v for i, v in enumerate(case['env'])},
+             'named_env'    : NENV if cfg.get('nenv') else '',
              'pre_exec'     : entries('pre_exec',  cfg['pre']),
              'post_exec'    : entries('post_exec', cfg['post']),
              'pre_launch'   : entries('pre_launch',  [g] * cfg['prel']),
@@ -337,7 +371,9 @@ class World(object):
     def run(self, case, keep=False, timeout=60):
         '''generate the scripts with the real code, run them, return the trace'''
         cfg  = case['cfg']
-        cfg.setdefault('err', cfg['out'])             # replay objects of the first version
+        cfg.setdefault('err', cfg['out'])             # replay objects of earlier versions
+        cfg.setdefault('nenv', False)
+        cfg.setdefault('envk', ['fresh'] * len(cfg['env']))
         uid  = case['uid']
         n    = cfg['ranks']
         task, want = self.task_for(case)
@@ -355,8 +391,9 @@ class World(object):
             self._lm_of.pop(uid, None)
 
         # outcomes the case prescribes
-        env = {'PATH': self.bin + ':/usr/bin:/bin', 'HOME': self.root + '/home',
+        env = {'PATH': self.path, 'HOME': self.root + '/home',
                'C10_OUT': obs, 'LANG': 'C.UTF-8'}
+        env.update(AGENT_ENV)
         for r in range(n):
             env['C10_RC_%d' % r] = str(case['xrc'][r])
         for f in case['F']:
@@ -433,9 +470,9 @@ class World(object):
                         envd[k.decode('utf-8', 'replace')] = v
                 ev['argv'] = {'cls': list(cfg['argv']), 'want': [hexs(a) for a in case['argv']],
                               'seen': seen}
-                ev['env']  = [{'k': 'C10_K%d' % (i + 1), 'cls': cfg['env'][i], 'want': 'h:' + hexs(v),
-                               'seen': ('h:' + envd['C10_K%d' % (i + 1)].hex())
-                                       if 'C10_K%d' % (i + 1) in envd else 'unset'}
+                ev['env']  = [{'k': env_key(cfg, i), 'cls': cfg['env'][i], 'want': 'h:' + hexs(v),
+                               'seen': ('h:' + envd[env_key(cfg, i)].hex())
+                                       if env_key(cfg, i) in envd else 'unset'}
                               for i, v in enumerate(case['env'])]
                 items = []
                 rpw = dict(want['rp'])
@@ -451,6 +488,10 @@ class World(object):
                 s = envd.get('C10_LM_ENV')
                 items.append({'clause': 'LauncherEnv', 'k': 'C10_LM_ENV',
                               'want': 'fork' if cfg['lm'] == 'fork' else 'mpirun',
+                              'seen': s.decode('utf-8', 'replace') if s is not None else 'unset'})
+                s = envd.get('VIRTUAL_ENV')
+                items.append({'clause': 'NamedEnv', 'k': 'VIRTUAL_ENV',
+                              'want': NENV_HOME if cfg.get('nenv') else 'unset',
                               'seen': s.decode('utf-8', 'replace') if s is not None else 'unset'})
                 cwd = (read('%s/cwd.%d' % (obs, r), 'r') or 'unreadable').strip()
                 items.append({'clause': 'Cwd', 'k': 'cwd', 'want': os.path.realpath(want['sbox']),
